@@ -3,7 +3,7 @@ from __future__ import annotations
 
 from typing import Any, Dict, List, Optional, Tuple
 
-from ..explore import Stats, Violation, pmap
+from ..explore import Stats, Violation, guarded_problem, pmap
 from ..world import World
 from . import codec
 
@@ -54,11 +54,16 @@ def send_point(case_json: Dict[str, Any]) -> Tuple[Optional[str], int]:
     return None, len(want)
 
 
+def _guarded_send(case_json: Dict[str, Any]) -> Tuple[Optional[str], int]:
+    problem, n = guarded_problem(lambda cj: send_point(cj))(case_json)  # type: ignore[misc]
+    return problem, (n if isinstance(n, int) else 1)
+
+
 def run(tier: str, seed: int) -> Tuple[Stats, str, List[str], Dict[str, Any]]:
     stats = Stats()
     sizes = codec.run_codec(ID, tier, stats)
     cases = [c.as_json() for c in send_cases(tier)]
-    for cj, (problem, n) in zip(cases, pmap(send_point, cases)):
+    for cj, (problem, n) in zip(cases, pmap(_guarded_send, cases)):
         stats.executions += 1
         stats.transitions += n
         stats.outcome(f"send-path:{'bad' if problem else 'ok'}:{min(n, 3)}")
